@@ -36,6 +36,11 @@ def check(repo: Repo, R) -> None:
     from . import c18 as _c18
     R.run(_c18.check, repo, Retag(R, lambda r, k: "C10.6-definition-views-hold-current-members" if r.startswith("C18.1") and k.startswith("hdl21/bundle.py") else None,
                                  "a member replaced by a member of the other kind stays in its per-kind view: the bundle port flattens to ports for leaves the definition no longer has"))
+    # "both sides agree on which flattened port carries which member": the parent reads the child's flattened ports from a cache
+    # keyed by the child module itself
+    from . import c07 as _c07
+    R.run(_c07.id_keyed_caches, repo, Retag(R, lambda r, k: "C10.5-both-sides-agree-on-members" if "flatten_bundles.py" in k else None,
+                                           "the cache of flattened bundle ports answers for another module of the same name: an instance is wired onto that module's flattened port names (`b_x_` it does not have), its own `b_x` left open"))
     R.run(roles_distinguishable, repo, R)
     R.run(anonymous_members_by_key, repo, R)
     R.run(anonymous_connections_everywhere, repo, R)
